@@ -442,15 +442,22 @@ impl Report {
     /// writes evidence, prints VIOLATION / KNOWN-FINDING lines, returns the process exit code
     pub fn finish(mut self) -> i32 {
         let wall = self.started.elapsed().as_secs_f64();
-        for l in &self.known_lines {
-            println!("{l}");
+        // a second build of the code under test (C13: debug assertions on) runs as a side run of the main one
+        let flavour = std::env::var("VERIF_BUILD_FLAVOUR").ok();
+        if flavour.is_none() {
+            for l in &self.known_lines {
+                println!("{l}");
+            }
         }
         let mut replay_paths = vec![];
         for (i, f) in self.violations.iter().enumerate() {
             let dir = std::env::var("VERIF_FOUND_DIR").unwrap_or_else(|_| format!("{}/replays/found", verif_root()));
             let _ = std::fs::create_dir_all(&dir);
             let path = format!("{dir}/{}-{}-{:016x}.json", self.id, self.tier, hash_value(&f.case) ^ i as u64);
-            let doc = json!({"property": self.id, "signature": f.signature, "detail": f.detail, "case": f.case});
+            let mut doc = json!({"property": self.id, "signature": f.signature, "detail": f.detail, "case": f.case});
+            if let Some(fl) = &flavour {
+                doc["build"] = json!(fl);
+            }
             let _ = std::fs::write(&path, serde_json::to_string_pretty(&doc).unwrap());
             println!("VIOLATION property={} replay={}", self.id, path);
             println!("  signature: {}", f.signature);
@@ -476,6 +483,28 @@ impl Report {
         });
         for (k, v) in &self.stats.extra {
             coverage[k] = v.clone();
+        }
+        if let Some(fl) = &flavour {
+            coverage["build"] = json!(fl);
+        }
+        if let Ok(side) = std::env::var("VERIF_SIDE_EVIDENCE") {
+            // summary of the side run (same check, other build of the code under test), measured by that run
+            match std::fs::read_to_string(&side).ok().and_then(|t| serde_json::from_str::<Value>(&t).ok()) {
+                Some(sv) => {
+                    coverage["second_build"] = json!({
+                        "build": sv["coverage"]["build"],
+                        "evaluations": sv["coverage"]["evaluations"],
+                        "distinct_nontrivial": sv["coverage"]["distinct_nontrivial"],
+                        "classes": sv["coverage"]["classes"],
+                        "inconclusive": sv["coverage"]["inconclusive"],
+                        "violations": sv["violations"],
+                        "wall_s": sv["wall_s"],
+                    });
+                }
+                None => {
+                    coverage["second_build"] = json!("side run wrote no evidence");
+                }
+            }
         }
         let ev = json!({
             "property_id": self.id,
